@@ -79,22 +79,39 @@ def guard_atoms(body, bb, prog=None, assume=(), _depth=0):
             if a[0] == "bool" and isinstance(a[1][0], tuple) and a[1][0][0] == "local" and _depth < 3:
                 l = a[1][0][1]
                 defs = body.defs().get(l, [])
-                blocks = []
-                allconst = bool(defs)
+                # defs that can produce the value `pol`: constants equal to pol, and non-constant definitions
+                same_const, other = [], []
+                ok = bool(defs)
                 for d in defs:
-                    if d[0] != "stmt":
-                        allconst = False
+                    if d[0] == "stmt":
+                        t = body.rvalue_term(d[3]["rv"])
+                        if isinstance(t, tuple) and t and t[0] == "const" and t[1] == "bool":
+                            if bool(t[2]) == a[2]:
+                                same_const.append(d[1])
+                        else:
+                            other.append((d[1], t))
+                    elif d[0] == "call":
+                        other.append((d[1], body.call_term(d[1], d[3])))
+                    else:
+                        ok = False
                         break
-                    t = body.rvalue_term(d[3]["rv"])
-                    if not (isinstance(t, tuple) and t[0] == "const" and t[1] == "bool"):
-                        allconst = False
-                        break
-                    if bool(t[2]) == a[2]:
-                        blocks.append(d[1])
-                if allconst and len(blocks) == 1 and blocks[0] != bb:
-                    for x in guard_atoms(body, blocks[0], prog, (), _depth + 1):
-                        if x not in out:
-                            out.append(x)
+                implied = []
+                if ok and len(same_const) == 1 and not other and same_const[0] != bb:
+                    # `matches!` lowering: the unique block assigning `pol`
+                    implied = guard_atoms(body, same_const[0], prog, (), _depth + 1)
+                elif ok and not same_const and len(other) == 1 and len(defs) >= 2:
+                    # `let b = match x { Some(s) => s.test(), None => false }`: b == true implies the arm's guards and test()
+                    dbb, t = other[0]
+                    implied = list(guard_atoms(body, dbb, prog, (), _depth + 1))
+                    nb = norm_bool(t, a[2])
+                    implied.append(nb + (dbb,))
+                for x in implied:
+                    if x not in out:
+                        out.append(x)
+                # the meaning of a compiler temporary (matches!, `let b = match ..`) is carried entirely by the implied atoms:
+                # leave a marker so that "no extra condition" rules do not count the temporary itself
+                if implied and (body.local_name(l) is None or (not same_const and len(other) == 1)):
+                    out.append(("lowered", (a[1][0],), a[2], a[3] if len(a) > 3 else None))
     return out
 
 
